@@ -156,3 +156,71 @@ fn c10_find_iter_unterminated() {
 fn c10_find_iter_unterminated_second() {
     check_line(b"a\nb", 2, 3, 3)
 }
+
+/// C09: trim_line_terminator removes exactly the line's terminator (`\n`, or
+/// `\r\n` in CRLF mode) and nothing else, for a line anywhere in a fully
+/// symbolic buffer of TN bytes (what keeps a printed line byte-for-byte the
+/// input's own in the printers that print line by line).
+const TN: usize = 5;
+
+fn check_trim(crlf: bool) {
+    let buf: [u8; TN] = kani::any();
+    let n: usize = kani::any();
+    kani::assume(n <= TN);
+    let start: usize = kani::any();
+    let end: usize = kani::any();
+    kani::assume(start < end && end <= n);
+    // the range is a line of the buffer: it starts after a terminator (or at
+    // 0) and contains no `\n` before its last byte
+    kani::assume(start == 0 || buf[start - 1] == b'\n');
+    let mut i = 0;
+    while i < TN {
+        if i >= start && i + 1 < end {
+            kani::assume(buf[i] != b'\n');
+        }
+        i += 1;
+    }
+    let term = if crlf { grep_matcher::LineTerminator::crlf() } else { grep_matcher::LineTerminator::byte(b'\n') };
+    let searcher = grep_searcher::SearcherBuilder::new().line_terminator(term).build();
+    let mut line = Match::new(start, end);
+    trim_line_terminator(&searcher, &buf[..n], &mut line);
+    let mut want = end;
+    if buf[end - 1] == b'\n' {
+        want = end - 1;
+        if crlf && want > start && buf[want - 1] == b'\r' {
+            want -= 1;
+        }
+    }
+    assert!(line.start() == start, "the start of the line is kept");
+    assert!(line.end() == want, "exactly the line terminator is trimmed");
+    kani::cover!(start > 0 && want + 2 == end, "reach-end");
+    std::mem::forget(searcher);
+}
+
+#[kani::proof]
+#[kani::unwind(8)]
+fn c09_trim_line_terminator_crlf() {
+    check_trim(true)
+}
+
+#[kani::proof]
+#[kani::unwind(8)]
+fn c09_trim_line_terminator_lf() {
+    check_trim_lf()
+}
+
+fn check_trim_lf() {
+    let buf: [u8; TN] = kani::any();
+    let n: usize = kani::any();
+    kani::assume(n <= TN);
+    let start: usize = kani::any();
+    let end: usize = kani::any();
+    kani::assume(start < end && end <= n);
+    let searcher = grep_searcher::SearcherBuilder::new().build();
+    let mut line = Match::new(start, end);
+    trim_line_terminator(&searcher, &buf[..n], &mut line);
+    let want = if buf[end - 1] == b'\n' { end - 1 } else { end };
+    assert!(line.start() == start && line.end() == want, "exactly the line terminator is trimmed");
+    kani::cover!(start > 0 && want + 1 == end, "reach-end");
+    std::mem::forget(searcher);
+}
